@@ -265,7 +265,7 @@ theorem getElem?_pwrite_of_le (f : File) (off : Nat) (d : Bytes) (i : Nat) (h : 
       · have b : off ≤ i ∧ i < off + d.length := by omega
         simp [h0, h1, h2]
       · have b : ¬ (off ≤ i ∧ i < off + d.length) := by omega
-        simp [h0, h1, h2, b]
+        simp [h0, h1, h2]
 
 /-- a read disjoint from the written range is unchanged (both directions in one lemma) -/
 theorem pread_pwrite_disj (f : File) (off : Nat) (d : Bytes) (o n : Nat)
